@@ -226,12 +226,38 @@ func genC08(t *rapid.T) C08Case {
 		maxSteps = 50
 	}
 	nsteps := rapid.IntRange(3, maxSteps).Draw(t, "nsteps")
-	bursted := false
+	bursted, manyRoots := false, false
 	noProbe := map[int]bool{}
 	for len(c.Steps) < nsteps {
 		switch k := rapid.IntRange(0, 11).Draw(t, "kind"); {
 		case k <= 1:
 			addLeaf()
+			if x := len(m.e) - 1; !manyRoots && m.e[x].leaf && m.e[x].tracked && rapid.IntRange(0, 19).Draw(t, "manyroots") == 0 {
+				// once per history at most: 16..40 (rarely 260) results computed from one fresh
+				// tracked leaf, all built first, then back-propagated one by one - the leaf
+				// receives that many contributions and is used that many times
+				manyRoots = true
+				k := rapid.SampledFrom([]int{15, 16, 17, 20, 31, 32, 33, 40}).Draw(t, "nroots")
+				if rapid.IntRange(0, 39).Draw(t, "hugeroots") == 0 {
+					k = 260
+				}
+				first := len(m.e)
+				for i := 0; i < k; i++ {
+					u := prog.Node{Op: "scale", In: []int{x}, F: float64(i%7) + 0.5}
+					c.Steps = append(c.Steps, HStep{Kind: "op", Node: &u})
+					m.addOp(u, m.e[x].shape)
+					if i < k-1 {
+						noProbe[len(m.e)-1] = true
+					}
+				}
+				for i := 0; i < k; i++ {
+					if m.bpEnabled(first + i) {
+						c.Steps = append(c.Steps, HStep{Kind: "bp", X: first + i})
+						m.bp(first + i)
+					}
+				}
+				nsteps += 2 * k
+			}
 		case k <= 7:
 			n, rs := drawHistOp(t, m, prog.AllOps)
 			c.Steps = append(c.Steps, HStep{Kind: "op", Node: &n})
